@@ -9,5 +9,5 @@ for a in "$@"; do
     echo "$d $P $P-$T$k"
   done
 done | xargs -P 3 -L 1 sh -c 'python3 /verif/tools/evalmut.py $0 $1 $2 2>&1 | grep -v conda | tail -9 > /tmp/mut/eval_$2.log'
-pgrep -f "benign|evalmut" >/dev/null || rm -rf /tmp/ev/gocache
+pgrep -f "benign|evalmut|recheck" >/dev/null || rm -rf /tmp/ev/gocache
 echo queue-done
